@@ -5,21 +5,43 @@
    repo files (a missing anchor string is a hard error: the hook no longer fits the tree);
  * extra JSON maps given as arguments (instrumented rewrites) are merged last; if a file
    is both patched and instrumented, the instrumenter has already consumed the patched copy.
-usage: mkoverlay.py [--out-dir build/rw-<id>] [extra-map.json ...]"""
-import json, os, sys
+   a white-box file named zz_verif_cNN.go belongs to property NN: it is only given to the harnesses of
+   that property (h/cNN*) and to harnesses that list it in h/<id>/WHITEBOX (one overlay-relative path
+   per line), so that a rename inside one subsystem cannot stop unrelated harnesses from building;
+usage: mkoverlay.py [--harness <id>] [--out-dir build/rw-<id>] [extra-map.json ...]"""
+import json, os, re, sys
 ROOT = os.environ.get('VERIF_ROOT', '/verif')
 root = ROOT + '/overlay'
 args = sys.argv[1:]
 outdir = ROOT + '/build/rw'
-if args and args[0] == '--out-dir':
-    outdir = args[1]; args = args[2:]
+harness = None
+while args and args[0] in ('--out-dir', '--harness'):
+    if args[0] == '--out-dir':
+        outdir = args[1]
+    else:
+        harness = args[1]
+    args = args[2:]
+wanted = set()
+if harness:
+    wb = os.path.join(ROOT, 'h', harness, 'WHITEBOX')
+    if os.path.exists(wb):
+        wanted = {l.strip() for l in open(wb) if l.strip() and not l.startswith('#')}
+
+
+def included(rel):
+    m = re.match(r'^zz_verif_c(\d\d)\.go$', os.path.basename(rel))
+    if not m or harness is None:
+        return True
+    return harness[1:3] == m.group(1) or rel in wanted
+
 rep = {}
 for d, _, fs in os.walk(root):
     for f in fs:
         if f.endswith('.go'):
             src = os.path.join(d, f)
             rel = os.path.relpath(src, root)
-            rep['/repo/' + rel] = src
+            if included(rel):
+                rep['/repo/' + rel] = src
 # the shim packages are virtual directories inside the repo module
 for d, _, fs in os.walk(ROOT + '/shim'):
     for f in fs:
